@@ -63,6 +63,25 @@ def o_history(inp):
     from scoda.elements.composition import Composition
     from props.C04 import _norm_op
     init = (inp["init"][0], [tuple(m) for m in inp["init"][1]])
+    if inp.get("pollute"):
+        # earlier in the same process, OTHER sequences with the same content went through operations with non-integer arguments
+        # (scale by a fraction, float ticks handed in by the caller).  On correct code that has no effect on what follows; if a
+        # module-level cache or memo keeps float results, the pollution is part of the replayable input.
+        for factor in inp["pollute"]:
+            try:
+                p_ = P.make_seq(init).copy()
+                p_.scale(factor)
+                p_.quantise()
+                p_.quantise_note_lengths()
+            except Exception:
+                pass
+        try:
+            p_ = P.make_seq(init).copy()
+            for m in p_.messages_abs():
+                m.time = float(m.time)
+            p_.quantise_and_normalise()
+        except Exception:
+            pass
     s = P.make_seq(init)
     fails = []
     for i, op in enumerate(inp["ops"]):
@@ -187,6 +206,9 @@ def generate(ctx):
             ctx.count("op:" + o[0])
         inp = {"init": init, "ops": ops, "requant": rng.random() < 0.5, "bins": rng.choice([1, 4, 8]), "fuse_value": rng.random() < 0.5}
         ctx.check("history", inp)
+        if i % 3 == 0:
+            ctx.count("process-polluted-with-floats-before")
+            ctx.check("history", dict(inp, pollute=[rng.choice([0.5, 0.25]), 2.0]))
         ctx.corr("seq", P.op_seq(init, ops + [("readAbs",), ("readRel",)]))
         # short bars and unequal tracks: typed correspondence of bar construction / splitting
         rel, _ = G.gen_wf_rel(rng, max_tick=40, max_dur=12, channels=(0,))
